@@ -451,6 +451,11 @@ void WFXMLScanner::cleanUp()
 //  upon successful return from here we are ready to go.
 void WFXMLScanner::scanReset(const InputSource& src)
 {
+    //  The ReaderMgr is normally flushed on the way out of a scan, but the
+    //  readers of a progressive scan that was given up without parseReset()
+    //  are still there: the new document must not be stacked on top of them.
+    fReaderMgr.reset();
+
     //  For all installed handlers, send reset events. This gives them
     //  a chance to flush any cached data.
     if (fDocHandler)
